@@ -133,6 +133,8 @@ pub fn run(ctx: &Ctx) -> Result<()> {
 		*stats.entry("suspending_runs".into()).or_insert(0) += 6;
 		*stats.entry("long_runs".into()).or_insert(0) += 6;
 	}
+	// the operators in use: from_debug generates its stream with from_coord_iter_parallel
+	{ let mut cases = 0u64; for (desc, detail) in crate::mvt::debug_stream_mismatches(ctx.thorough, &mut cases)? { viol.push(V { kind: "in-use", input: desc, detail }); } stats.insert("debug_stream_runs".into(), cases); }
 	stats.insert("reordered_runs".into(), reordered);
 	stats.insert("window_n".into(), n as u64);
 	let lines = out.lines;
